@@ -154,6 +154,7 @@ def cases(tier):
         yield ('wide-slices', 'zip_pickle', 6, mp)
     for fmt in ('zip_csv', 'zip_tsv', 'sqlite', 'zip_pickle'):
         yield ('encoded-labels', fmt)
+        yield ('text-labels', fmt)
 
 
 def universe(tier):
@@ -596,6 +597,46 @@ def run_encoded_labels(case, ctx):
     ctx.sample({'family': 'encoded-labels', 'format': fmt}, limit=1)
 
 
+TEXT_LABELS = ['2021.q1', '2021', 'v1.0.3', 'v1', 'a.b', '.lead', 'trail.', 'x y', 'p-q', 'UPPER', '1.5', 'a.pickle', 'b.txt', 'c.csv.d']
+
+
+def run_text_labels(case, ctx):
+    """text labels with dots (several sharing the text before the first dot), a leading / trailing dot, a space, a dash, a file-extension look-alike:
+    every ordered pair and the whole list is written and read back; the labels and every Frame under its label come back as written"""
+    _, fmt = case
+    to, frm, ext, needs_cfg = FORMATS[fmt]
+    cfg = sf.StoreConfig(index_depth=1)
+    def mk(i, lab):
+        return sf.Frame.from_records([[10 * i + 1, 10 * i + 2]], index=('r',), columns=('p', 'q'), name=lab)
+    sets = [tuple(TEXT_LABELS), tuple(reversed(TEXT_LABELS))] + [(a, b) for a in TEXT_LABELS for b in TEXT_LABELS if a != b]
+    path = os.path.join(workdir(), f'txt_{os.getpid()}{ext}')
+    for labs in sets:
+        ctx.transition()
+        ctx.state(('text-labels', fmt, labs))
+        ctx.nontriv(('text-labels', fmt, labs))
+        info = dict(format=fmt, labels=labs)
+        if os.path.exists(path):
+            os.remove(path)
+        fs = [mk(TEXT_LABELS.index(lab), lab) for lab in labs]
+        try:
+            getattr(sf.Bus.from_frames(fs, config=cfg), to)(path, config=cfg)
+            bus = getattr(sf.Bus, frm)(path, config=cfg)
+            if bus.index.values.tolist() != list(labs):
+                ctx.violation(f'{fmt}|text-labels|labels', **info, got=bus.index.values.tolist())
+                continue
+            for f in fs:
+                g = bus[f.name]
+                if not (g.shape == f.shape and g.values.tolist() == f.values.tolist() and g.index.values.tolist() == ['r'] and g.columns.values.tolist() == ['p', 'q']):
+                    ctx.violation(f'{fmt}|text-labels|frame-differs', **info, label=f.name, got=repr((g.index.values.tolist(), g.columns.values.tolist(), g.values.tolist())))
+                    break
+        except Exception as e:
+            ctx.violation(f'{fmt}|text-labels|raises-{type(e).__name__}', **info, error=repr(e))
+    if os.path.exists(path):
+        os.remove(path)
+    ctx.outcome('text-labels')
+    ctx.sample({'family': 'text-labels', 'format': fmt, 'label_sets': len(sets)}, limit=1)
+
+
 def run_wide_slices(case, ctx):
     '''six Frames; every set of at most two labels loaded beforehand (in either order); then a slice key that spans loaded and deferred Frames; then every
     label read back: whatever a Bus holds or returns for a label is the Frame an eager load returns for it, and never more than max_persist are held'''
@@ -652,4 +693,6 @@ def run_case(case, ctx):
         return run_wide_slices(case, ctx)
     if case[0] == 'encoded-labels':
         return run_encoded_labels(case, ctx)
+    if case[0] == 'text-labels':
+        return run_text_labels(case, ctx)
     {'history': run_history, 'faults': run_faults, 'roundtrip': run_roundtrip}[case[0]](case, ctx)
